@@ -24,7 +24,7 @@ func init() {
 			"oracle: no error diagnostic => the run does not fail with a type error, unbound variable, unbound function, bad arity or unknown type; no diagnostic at all => additionally not with unbounded / allotment source in send-all; " +
 			"non-trivial = the script was edited and the checker reported no error (the implication's premise holds on an edited script), or the run ended in an error; distinct = script text + sheet",
 		Assumptions: []string{"account variables never hold \"world\" (a value, not a shape)", "scripts whose check reports an error are counted and not executed"},
-		QuickBudget: 70 * time.Second,
+		QuickBudget: 240 * time.Second,
 		ThoroBudget: 12 * time.Minute,
 		Run:         runC17,
 	})
